@@ -112,6 +112,11 @@ Step(o) ==
       ret == IF ok /\ o.op \in VaultOps THEN Preview(o) ELSE Bad
       ev == [op |-> o, res |-> IF ok THEN "ok" ELSE "fail", pv |-> pv, ret |-> ret,
              obs |-> ObsOf(asset', sh', supply', sal', aal'),
+             q |-> LET A2 == asset'[V]  S2 == supply'  px == IF o.x > 0 THEN o.x ELSE 3 IN
+                   [ta |-> A2, px |-> px,
+                    cs1 |-> FloorDiv(1 * (S2 + PP), A2 + 1), csx |-> FloorDiv(px * (S2 + PP), A2 + 1),
+                    ca1 |-> FloorDiv(1 * (A2 + 1), S2 + PP), cax |-> FloorDiv(px * (A2 + 1), S2 + PP),
+                    maxr |-> sh', maxw |-> [a \in DOMAIN sh' |-> FloorDiv(sh'[a] * (A2 + 1), S2 + PP)]],
              evs |-> IF ok THEN ExpEvents(o, ret) ELSE << >>]
   IN /\ IF ok THEN ImplEffect(o) ELSE UNCHANGED <<asset, sh, supply, sal, aal>>
      /\ g' = GNext(g, ev)
